@@ -41,7 +41,7 @@ claim('C04', 'instruction whitelist + per-iteration must-check gates + argument 
 claim('C05', 'abstract interpretation over a finite domain with loop fixpoint (aggregator) + must-check gates + argument provenance',
       'Static: the aggregation function is interpreted abstractly (per-certificate result in {OK, NonRevokable, Unknown, Revoked, other}, two-point counter abstraction, ghost bits) to a fixpoint: in every reachable abstract state a Revoked '
       'certificate makes the aggregate Revoked and any non-OK certificate makes it non-OK; the loop is cut by equal lengths, visits all indices and indexes results and chain alike; both validator interfaces get the unsliced chain and the same '
-      'signing time (zero unless signing-authority); a validator error or any aggregate other than OK sets the result\'s Error; the constructor leaves a non-nil validator or client. Covers all result vectors as abstract states, not as enumerated values; OCSP/CRL are trusted.', 'DESIGN.md 2/C05')
+      'signing time (zero unless signing-authority); a validator error or any aggregate other than OK sets the result\'s Error; the constructor leaves a non-nil validator or client, every delegating constructor forwards the caller's validator/client option unchanged, and a default validator is installed only where the caller supplied neither. Covers all result vectors as abstract states, not as enumerated values; OCSP/CRL are trusted.', 'DESIGN.md 2/C05')
 
 claim('C06', 'must-check gate analysis with operand provenance + finite decision table by abstract interpretation (regime) on SSA',
       'Static, all-paths: the expiry result is error-free only through expiry.IsZero() or time.Now().Before(expiry); under signing-authority every certificate of the whole chain is inside its window at SignedAttributes.SigningTime; '
@@ -51,7 +51,7 @@ claim('C06', 'must-check gate analysis with operand provenance + finite decision
 claim('C07', 'reader/writer type agreement + constant-table equality + abstract interpretation of codec functions (repo and dependency) + provenance',
       'Static: every decode of a verified payload targets *envelope.Payload (what both signers marshal) or a generic map, into a fresh variable (json.Unmarshal keeps what the input omits); notation.VerifyBlob and UserMetadata return fields of the payload decoded from the verified outcome; the signer and verifier hash->digest '
       'tables are equal and cover the hashes core-go binds to the six key specs; proto.HashAlgorithmFromKeySpec equals core-go KeySpec.SignatureAlgorithm().Hash() on all six (both interpreted abstractly); Encode/DecodeKeySpec are inverse; '
-      'payload = Payload{Sanitize(desc)} with exactly four fields copied, the accepted content-type constant is the one written, expiry = SigningTime+duration only if non-zero, blob digest algorithm from the key spec with fail-closed miss. '
+      'payload = Payload{Sanitize(desc)} with exactly four fields copied, the accepted content-type constant is the one written, expiry = SigningTime+duration only if non-zero, blob digest algorithm from the key spec with fail-closed miss; the blob descriptor generator (which drains a one-shot reader) is evaluated at most once on every path of signing and verification. '
       'These are necessary agreement conditions of the round trip; the round trip itself (cryptography, encoders) is not decidable statically.', 'DESIGN.md 2/C07')
 
 claim('C08', 'effect-site gates on the selection loop + finite decision table by abstract interpretation (precedence) + ownership/deep-copy analysis on SSA',
@@ -78,7 +78,7 @@ claim('C11', 'interprocedural ownership/origin analysis of every write on the si
       'Necessary conditions for "signing twice succeeds twice" for every descriptor, metadata map and reference; repository and signer internals are trusted.', 'DESIGN.md 2/C11')
 
 claim('C12', 'panic-site inventory with local discharge proofs (guards, filter/producer summaries, correlated nil-check tracking) + outcome/error consistency + size-cap gates + error-discipline lint',
-      'Static: every non-comma-ok type assertion, slice/string index and slice expression, dereference of the nilable-by-API pointers, call through a nilable verifier field, MustCompile, map update and explicit panic in the product packages is '
+      'Static: every non-comma-ok type assertion, slice/string index and slice expression, dereference of the nilable-by-API pointers and of pointers that come out of decoded external data (elements of maps/slices of pointers to JSON structs, pointer fields of JSON structs: nil test required, comma-ok does not count), call through a nilable verifier field, MustCompile, map update and explicit panic in the product packages is '
       'enumerated and discharged by a proof visible in the code (dominating guard, loop induction over the same/equal-length slice, producer filter summary, constructor post-condition) or by a table line with reason; the two verifier methods '
       'return (outcome, nil) only on paths no error store reaches and otherwise the error just stored; every FetchAll / ReadAll of fetched content is cut by a positive cap on the descriptor fetched (also when the fetch sits in a helper); the compiler-inserted range-over-func misuse panics are exempt only when every ranged iterator comes from outside the module; no decoder error is dropped. '
       'Covers the enumerated panic classes of the module\'s own code for all inputs and configurations; panics and allocations inside dependencies are not analysed.', 'DESIGN.md 2/C12')
@@ -105,7 +105,7 @@ claim('C16', 'taint analysis with certified sanitizers (regexp/syntax certificat
       'DirEntry type, and conversely every way through the listing callback records the name of an entry that is a real directory other than the root, and the callback answers fs.SkipDir only for a directory and never fs.SkipAll (no plugin directory is dropped from the listing). Holds for every name string at once; also analysed under GOOS=windows in the thorough tier. What the OS does with a validated single component is trusted.', 'DESIGN.md 2/C16')
 claim('C17', 'typestate of the exec.Cmd object (dominating unconditional stores) + must-check gates + guarded error-mapping table + who-may-call',
       'Static: decides the structural preconditions of containment — the only process start is exec.CommandContext with the caller\'s context; before Run, unconditionally, Stdout and Stderr are the module\'s limited writer with a positive constant cap, WaitDelay is a positive constant '
-      'and Stdin is the request; the limited writer forwards only with a positive remaining budget, at most that budget, and accounts every forwarded byte (remaining counter or written counter); the runner succeeds only on process success and a whole-buffer json.Unmarshal of stdout; the three failure mappings and all metadata gates (incl. name == plugin name) are fail-closed. '
+      'and Stdin is the request; the limited writer forwards only with a positive remaining budget, at most that budget, and accounts every forwarded byte (remaining counter or written counter); the runner succeeds only on process success and a whole-buffer json.Unmarshal of stdout; the three failure mappings and all metadata gates (incl. name == plugin name) are fail-closed, and every failing exit of the process runner after Run hands on the captured stderr (Bytes() of the buffer behind cmd.Stderr) so that the plugin's own structured error can be reported. '
       'NOT decided: real timing and memory, which follow from os/exec semantics (trusted).', 'DESIGN.md 2/C17')
 
 claim('C18', 'must-check gates per success exit (composed through helpers, parameter-substituted) + per-iteration loop gates + returned-value provenance + request-field stores + decision tables',
